@@ -4,6 +4,7 @@ use serde_json::{json, Value};
 use std::cmp::Ordering;
 
 mod apath_ops;
+mod rawarchive;
 
 fn main() {
     let path = std::env::args().nth(1).expect("scenario path");
@@ -12,6 +13,7 @@ fn main() {
     let kind = sc["kind"].as_str().unwrap_or("");
     let out = match kind {
         "apath_batch" => apath_ops::run_batch(&sc),
+        "stitch" => rawarchive::run_stitch(&sc),
         other => json!({"error": format!("unknown scenario kind {other}")}),
     };
     println!("{}", serde_json::to_string(&out).unwrap());
